@@ -25,6 +25,18 @@ def replace_node(node: _M, repl: _M) -> None:
         repl.reattach(token_store)
 
 
+def check_reusable(values: Iterable[base.RawModel]) -> None:
+    """Raises if any of the nodes cannot be moved into another place (same rule as RawModel.detach)."""
+    seen = set[int]()
+    for value in values:
+        token_store = value.token_store
+        if id(value) in seen or token_store and (
+                value.first_token is not token_store.get_first() or
+                value.last_token is not token_store.get_last()):
+            raise ValueError('Cannot reuse node. Consider making a copy.')
+        seen.add(id(value))
+
+
 class required_node_property(base_rw_property[_M, base.RawTreeModel]):
     def __init__(self, inner_field: required_field[_M]) -> None:
         super().__init__()
@@ -195,6 +207,7 @@ class RepeatedNodeWrapper(MutableSequence[_M]):
             return
         assert isinstance(value, Iterable)
         values = list(value)
+        check_reusable(values)
         r = indexes.range_from_index(index, len(self._repeated.items))
         separators_before_last = (
             self._repeated.token_store.get_prev(self._repeated.items[0].first_token)
@@ -241,6 +254,7 @@ class RepeatedNodeWrapper(MutableSequence[_M]):
 
     def extend(self, values: Iterable[_M]) -> None:
         values = list(values)
+        check_reusable(values)
         index = len(self._repeated.items)
         self._insert_tokens(index, values)
         for value in values:
